@@ -6,6 +6,7 @@ import (
 	"io/ioutil"
 	"os"
 	"path/filepath"
+	"strings"
 	"sync/atomic"
 	"testing"
 )
@@ -64,4 +65,18 @@ func TestMain(m *testing.M) {
 		os.RemoveAll(fmt.Sprintf("/dev/shm/verif-dev.%d", os.Getpid()))
 	}
 	os.Exit(code)
+}
+
+// fail reports a failing case: messages that start with "harness:" are
+// problems of the machinery (inconclusive, exit 2), everything else is a
+// violation with a replay file.
+func fail(st *Stats, rt interface{ Fatalf(string, ...interface{}) }, msg string, replay interface{}) {
+	if strings.HasPrefix(msg, "harness:") {
+		st.Freeze()
+		st.Note("%s", trunc(msg, 300))
+		st.Flush()
+		rt.Fatalf("%s", msg)
+	}
+	st.Violate(msg, replay)
+	rt.Fatalf("%s", msg)
 }
